@@ -26,6 +26,9 @@ pub enum Origin {
     New { id: u8 },
     /// page built with from_bytes over a borrowed buffer whose bytes are h64(seed, index)
     Borrowed { seed: u64 },
+    /// borrowed buffer filled with one byte value, with a few single bits flipped (so that whole rows or whole
+    /// bytes already have "the requested value" while isolated pixels differ)
+    BorrowedSparse { fill: u8, flips: Vec<u16> },
 }
 
 #[derive(Serialize, Deserialize, Debug, Clone, PartialEq, Eq, Hash)]
@@ -40,6 +43,15 @@ fn initial_bytes(c: &PageCase) -> Vec<u8> {
     match c.origin {
         Origin::New { id } => crate::oracle::page::new_bytes(id, c.w, c.h),
         Origin::Borrowed { seed } => (0..total_len(c.w, c.h)).map(|i| h64(&(seed, i as u64)) as u8).collect(),
+        Origin::BorrowedSparse { fill, ref flips } => {
+            let mut v = vec![fill; total_len(c.w, c.h)];
+            let bits = v.len() * 8;
+            for f in flips {
+                let b = crate::engine::pick_idx(*f, bits);
+                v[b / 8] ^= 1 << (b % 8);
+            }
+            v
+        }
     }
 }
 
@@ -83,7 +95,7 @@ pub fn check_page(c: &PageCase, st: &mut Stats) -> Result<(), String> {
     let borrowed_buf = initial.clone();
     let mut page: Page<'_> = match c.origin {
         Origin::New { id } => catch(|| Page::new(PageId(id), c.w, c.h)).map_err(|p| format!("Page::new panicked: {p}"))?,
-        Origin::Borrowed { .. } => match catch(|| Page::from_bytes(c.w, c.h, &borrowed_buf[..])) {
+        Origin::Borrowed { .. } | Origin::BorrowedSparse { .. } => match catch(|| Page::from_bytes(c.w, c.h, &borrowed_buf[..])) {
             Ok(Ok(p)) => p,
             Ok(Err(e)) => return Err(format!("from_bytes rejected a buffer of the padded size: {e}")),
             Err(p) => return Err(format!("from_bytes panicked: {p}")),
@@ -202,6 +214,7 @@ pub fn check_page(c: &PageCase, st: &mut Stats) -> Result<(), String> {
     st.class(match c.origin {
         Origin::New { .. } => "origin:new",
         Origin::Borrowed { .. } => "origin:borrowed-bytes",
+        Origin::BorrowedSparse { .. } => "origin:borrowed-sparse-bytes",
     });
     if st.want_sample() && nontrivial && c.ops.len() > 2 {
         st.sample(json!({"w": c.w, "h": c.h, "origin": c.origin, "ops": c.ops.iter().take(8).collect::<Vec<_>>(), "n_ops": c.ops.len()}));
@@ -237,7 +250,14 @@ fn coord_strategy(w: u32, h: u32) -> impl Strategy<Value = (u32, u32)> {
 }
 
 fn case_strategy(boxw: u32, boxh: u32) -> impl Strategy<Value = PageCase> {
-    (dims_strategy(boxw, boxh), prop_oneof![any::<u8>().prop_map(|id| Origin::New { id }), any::<u64>().prop_map(|seed| Origin::Borrowed { seed })])
+    (
+        dims_strategy(boxw, boxh),
+        prop_oneof![
+            3 => any::<u8>().prop_map(|id| Origin::New { id }),
+            3 => any::<u64>().prop_map(|seed| Origin::Borrowed { seed }),
+            2 => (proptest::sample::select(vec![0x00u8, 0xFF, 0x0F, 0xF0, 0x03, 0xFC]), proptest::collection::vec(any::<u16>(), 0..4)).prop_map(|(fill, flips)| Origin::BorrowedSparse { fill, flips }),
+        ],
+    )
         .prop_flat_map(|((w, h), origin)| {
             let maxops = if (w as u64) * (h as u64) > 5000 { 6 } else { 40 };
             let op = prop_oneof![
@@ -302,6 +322,42 @@ pub fn run(ctx: &Ctx) {
         Ok(())
     });
     ctx.part_done("edges-real-sizes", true, json!("11 real sizes + 4 large sizes x edge coordinates x new/borrowed"));
+
+    // set_all_pixels as the FIRST call on a borrowed page that is almost uniform (for every fill / value / flip position class)
+    let mut sparse: Vec<PageCase> = vec![];
+    for &(w, h) in &[(40u32, 12u32), (23, 10), (30, 10), (5, 9), (3, 17), (90, 7), (4, 20), (2, 33)] {
+        for fill in [0x00u8, 0xFF, 0x0F, 0xF0, 0x07, 0xF8] {
+            for v in [false, true] {
+                for k in 0..12u16 {
+                    sparse.push(PageCase { w, h, origin: Origin::BorrowedSparse { fill, flips: vec![k.wrapping_mul(5461).wrapping_add(97 * (w as u16 + h as u16))] }, ops: vec![Op::SetAll(v), Op::Get(0, 0), Op::Get(w - 1, h - 1)] });
+                }
+            }
+        }
+    }
+    par_range(ctx, "set-all-first-on-almost-uniform-borrowed-pages", sparse.len() as u64, |i, st| {
+        let c = &sparse[i as usize];
+        check_page(c, st).map_err(|m| (serde_json::to_value(c).unwrap(), m))?;
+        st.nontrivial_enumerated(1);
+        Ok(())
+    });
+    ctx.part_done("set-all-first-on-almost-uniform-borrowed-pages", true, json!({"cases": sparse.len()}));
+
+    // zero-width / zero-height pages of extreme height / width: every access is out of bounds and must panic
+    let degenerate: Vec<(u32, u32)> = vec![(0, u32::MAX), (0, u32::MAX - 7), (u32::MAX, 0), (0, 300), (0, 0)];
+    par_range(ctx, "degenerate-extreme-sizes", degenerate.len() as u64, |i, st| {
+        let (w, h) = degenerate[i as usize];
+        let mut ops = vec![];
+        for (x, y) in [(0u32, 0u32), (0, h.saturating_sub(1)), (w.saturating_sub(1), 0), (0, h), (w, 0), (u32::MAX, u32::MAX), (0, 7), (0, 8)] {
+            ops.push(Op::Get(x, y));
+            ops.push(Op::Set(x, y, true));
+        }
+        ops.push(Op::SetAll(true));
+        let c = PageCase { w, h, origin: Origin::New { id: 1 }, ops };
+        check_page(&c, st).map_err(|m| (serde_json::to_value(&c).unwrap(), m))?;
+        st.nontrivial_enumerated(1);
+        Ok(())
+    });
+    ctx.part_done("degenerate-extreme-sizes", true, json!("zero-width / zero-height pages with the other dimension up to u32::MAX"));
 
     run_generated(ctx, "sequences", ctx.tier.pick(200_000, 2_000_000), move || case_strategy(bw, bh), |c, st| check_page(c, st));
 }
